@@ -283,4 +283,192 @@ mutual
       · exact fwd_fields c rest hok.2 (fun h => (hc h).2) x hx
 end
 
+/-! ### arguments and directives -/
+
+def ArgsOK (as : List Argument) : Prop := ∀ a ∈ as, ValueOK a.value
+def DirsOK (ds : List Directive) : Prop := ∀ d ∈ ds, ArgsOK d.args
+
+theorem fwd_argument (c : Bool) (x : Argument) (hok : ValueOK x.value) (hc : c = true → ConstValue x.value)
+    (n : Nat) (a : AS) (σ1 : Stream) (hs : Starts a.σ (printArgument x) σ1) :
+    Fwd (parseArgument n c) a (fun y a' => y.erasePos = x.erasePos ∧ a'.σ = σ1) := by
+  unfold printArgument at hs
+  obtain ⟨σa, h1, hs⟩ := hs.cons_single
+  obtain ⟨σb, h2, h3⟩ := hs.cons_single
+  unfold parseArgument
+  refine Fwd.bind (fwd_peekPos _) ?_
+  rintro pos b1 rfl
+  refine Fwd.bind (fwd_parseName x.name h1) ?_
+  rintro nm b2 ⟨rfl, hσ2⟩
+  refine Fwd.bind (fwd_punct .colon (by rw [hσ2]; exact h2)) ?_
+  rintro _ b3 hσ3
+  refine Fwd.bind (fwd_value c x.value hok hc n b3 σ1 (by rw [hσ3]; exact h3)) ?_
+  rintro v' b4 ⟨hv, hσ⟩
+  refine (Fwd.pure _ _).mono ?_
+  rintro y b5 ⟨rfl, rfl⟩
+  exact ⟨by simp [Argument.erasePos, hv], hσ⟩
+
+theorem fwd_arguments (c : Bool) (as : List Argument) (hok : ArgsOK as) (hc : c = true → ∀ x ∈ as, ConstValue x.value)
+    (n : Nat) (a : AS) (σ' : Stream) (hs : Starts a.σ (printArguments as) σ') (hfol : as = [] → σ'.head.kind ≠ .parenL) :
+    Fwd (parseArguments n c) a (fun ys a' => ys.map Argument.erasePos = as.map Argument.erasePos ∧ a'.σ = σ') := by
+  unfold parseArguments
+  by_cases he : as = []
+  · subst he
+    simp only [printArguments, List.isEmpty_nil, if_true] at hs
+    rw [Starts.nil_iff] at hs
+    refine (fwd_bracket_absent .parenL .parenR n a (by rw [hs]; exact hfol rfl)).2.mono ?_
+    rintro ys a' ⟨rfl, hσ⟩
+    exact ⟨rfl, by rw [hσ, hs]⟩
+  · have hp : printArguments as = tP .parenL :: as.flatMap printArgument ++ [tP .parenR] := by
+      cases as with
+      | nil => exact absurd rfl he
+      | cons x r => simp [printArguments]
+    rw [hp] at hs
+    exact (fwd_bracket Argument.erasePos printArgument (fun _ => True) .parenL .parenR as
+      (fun x hx a0 σ1 hst _ => fwd_argument c x (hok x hx) (fun h => hc h x hx) n a0 σ1 hst)
+      (fun x _ => ⟨_, _, rfl, by simp [tName]⟩) (fun _ _ => trivial) n a σ' hs).2 he
+
+theorem fwd_directive (c : Bool) (d : Directive) (hok : ArgsOK d.args) (hc : c = true → ∀ x ∈ d.args, ConstValue x.value)
+    (n : Nat) (a : AS) (σ' : Stream) (hs : Starts a.σ (printDirective d) σ') (hfol : d.args = [] → σ'.head.kind ≠ .parenL) :
+    Fwd (parseDirective n c) a (fun y a' => y.erasePos = d.erasePos ∧ a'.σ = σ') := by
+  unfold printDirective at hs
+  obtain ⟨σa, h1, hs⟩ := hs.cons_single
+  obtain ⟨σb, h2, h3⟩ := hs.cons_single
+  unfold parseDirective
+  refine Fwd.bind (fwd_punct .at h1) ?_
+  rintro _ b1 hσ1
+  refine Fwd.bind (fwd_peekPos _) ?_
+  rintro pos b2 rfl
+  refine Fwd.bind (fwd_parseName d.name (by rw [hσ1]; exact h2)) ?_
+  rintro nm b3 ⟨rfl, hσ3⟩
+  refine Fwd.bind (fwd_arguments c d.args hok hc n b3 σ' (by rw [hσ3]; exact h3) hfol) ?_
+  rintro as' b4 ⟨has, hσ⟩
+  refine (Fwd.pure _ _).mono ?_
+  rintro y b5 ⟨rfl, rfl⟩
+  exact ⟨by simp [Directive.erasePos, has], hσ⟩
+
+theorem head_printDirective (d : Directive) : ∃ rest, printDirective d = tP .at :: rest := ⟨_, rfl⟩
+
+theorem fwd_directivesLoop (c : Bool) (m : Nat) : ∀ (ds : List Directive), DirsOK ds → (c = true → ConstDirectives ds) →
+    ∀ (n : Nat) (acc : List Directive) (a : AS) (σ' : Stream), Starts a.σ (printDirectives ds) σ' →
+      σ'.head.kind ≠ .at → σ'.head.kind ≠ .parenL →
+      Fwd (directivesLoop (parseDirective m c) n acc) a
+        (fun ys a' => ys.map Directive.erasePos = (ds.reverse ++ acc).map Directive.erasePos ∧ a'.σ = σ')
+  | [], _, _ => by
+    intro n acc a σ' hs h1 _
+    simp only [printDirectives, List.flatMap_nil] at hs
+    rw [Starts.nil_iff] at hs
+    cases n with
+    | zero => exact Fwd.outOfFuel _ _ _
+    | succ n =>
+      unfold directivesLoop
+      refine Fwd.bind (fwd_peek a) ?_
+      rintro t a1 ⟨rfl, rfl⟩
+      refine Fwd.ite_neg (by rw [hs]; exact h1) ((Fwd.pure _ _).mono ?_)
+      rintro ys a' ⟨rfl, rfl⟩
+      exact ⟨by simp, hs⟩
+  | d :: ds, hok, hc => by
+    intro n acc a σ' hs h1 h2
+    simp only [printDirectives, List.flatMap_cons] at hs
+    rw [Starts.append_iff] at hs
+    obtain ⟨σm, hd, hrest⟩ := hs
+    cases n with
+    | zero => exact Fwd.outOfFuel _ _ _
+    | succ n =>
+      unfold directivesLoop
+      refine Fwd.bind (fwd_peek a) ?_
+      rintro t a1 ⟨rfl, rfl⟩
+      have hk : a.σ.head.kind = .at := hd.head_kind
+      refine Fwd.ite_pos hk (Fwd.bind (fwd_hasErr _) ?_)
+      rintro e a2 ⟨rfl, rfl⟩
+      have hm : σm.head.kind ≠ .parenL := by
+        cases ds with
+        | nil =>
+          simp only [List.flatMap_nil] at hrest
+          rw [Starts.nil_iff] at hrest
+          rw [hrest]; exact h2
+        | cons d2 r =>
+          simp only [List.flatMap_cons, printDirective, List.cons_append] at hrest
+          rw [hrest.head_kind]; simp [tP]
+      refine Fwd.ite_neg (by simp) (Fwd.bind (fwd_directive c d (hok d (by simp)) (fun h => hc h d (by simp)) m _ σm hd
+        (fun _ => hm)) ?_)
+      rintro y a3 ⟨hy, hσ3⟩
+      refine (fwd_directivesLoop c m ds (fun z hz => hok z (by simp [hz])) (fun h z hz => hc h z (by simp [hz]))
+        n (y :: acc) a3 σ' (by rw [hσ3]; exact hrest) h1 h2).mono ?_
+      rintro ys a' ⟨e1, e2⟩
+      exact ⟨by rw [e1]; simp [hy], e2⟩
+
+/-- `Directives?`: what follows must not look like a directive or an argument list -/
+theorem fwd_directives (c : Bool) (ds : List Directive) (hok : DirsOK ds) (hc : c = true → ConstDirectives ds)
+    (n : Nat) (a : AS) (σ' : Stream) (hs : Starts a.σ (printDirectives ds) σ')
+    (h1 : σ'.head.kind ≠ .at) (h2 : σ'.head.kind ≠ .parenL) :
+    Fwd (parseDirectives n c) a (fun ys a' => ys.map Directive.erasePos = ds.map Directive.erasePos ∧ a'.σ = σ') := by
+  unfold parseDirectives
+  refine Fwd.bind (fwd_directivesLoop c n ds hok hc n [] a σ' hs h1 h2) ?_
+  rintro ys a1 ⟨hy, hσ⟩
+  refine (Fwd.pure _ _).mono ?_
+  rintro zs a' ⟨rfl, rfl⟩
+  exact ⟨by rw [List.map_reverse, hy]; simp, hσ⟩
+
+/-! ### types and variable definitions -/
+
+theorem fwd_type : ∀ (ty : GType) (n : Nat) (a : AS) (σ' : Stream), Starts a.σ (printType ty) σ' →
+    (ty.nonNull = false → σ'.head.kind ≠ .bang) →
+    Fwd (parseTypeReference n) a (fun y a' => y.erasePos = ty.erasePos ∧ a'.σ = σ')
+  | .named nm nn p, n, a, σ', hs, hfol => by
+    cases n with
+    | zero => exact Fwd.outOfFuel _ _ _
+    | succ n =>
+      simp only [printType] at hs
+      obtain ⟨σ1, h1, h2⟩ := hs.cons_single
+      unfold parseTypeReference
+      refine Fwd.bind (fwd_skipP_no .bracketL (by rw [hs.head_kind]; simp [tName])) ?_
+      rintro b a1 ⟨rfl, hσ1⟩
+      refine Fwd.ite_neg (by simp) (Fwd.bind (fwd_peekPos _) ?_)
+      rintro pos a2 rfl
+      refine Fwd.bind (fwd_parseName nm (by rw [hσ1]; exact h1)) ?_
+      rintro x a3 ⟨rfl, hσ3⟩
+      cases nn with
+      | true =>
+        simp only [bangIf, if_true] at h2
+        refine Fwd.bind (fwd_skipP_yes .bang (by rw [hσ3]; exact h2)) ?_
+        rintro b a4 ⟨rfl, hσ4⟩
+        exact (Fwd.pure _ _).mono fun _ _ h => ⟨by rw [h.1]; rfl, by rw [h.2, hσ4]⟩
+      | false =>
+        simp only [bangIf, Bool.false_eq_true, if_false] at h2
+        rw [Starts.nil_iff] at h2
+        refine Fwd.bind (fwd_skipP_no .bang (by rw [hσ3, h2]; exact hfol rfl)) ?_
+        rintro b a4 ⟨rfl, hσ4⟩
+        exact (Fwd.pure _ _).mono fun _ _ h => ⟨by rw [h.1]; rfl, by rw [h.2, hσ4, hσ3, h2]⟩
+  | .list e nn p, n, a, σ', hs, hfol => by
+    cases n with
+    | zero => exact Fwd.outOfFuel _ _ _
+    | succ n =>
+      simp only [printType] at hs
+      obtain ⟨σ1, h1, hs2⟩ := hs.cons_single
+      replace hs2 : Starts σ1 (printType e ++ (tP .bracketR :: bangIf nn)) σ' := hs2
+      rw [Starts.append_iff] at hs2
+      obtain ⟨σ2, he, hs3⟩ := hs2
+      obtain ⟨σ3, h3, h4⟩ := hs3.cons_single
+      unfold parseTypeReference
+      refine Fwd.bind (fwd_skipP_yes .bracketL h1) ?_
+      rintro b a1 ⟨rfl, hσ1⟩
+      refine Fwd.ite_pos rfl (Fwd.bind (fwd_peekPos _) ?_)
+      rintro pos a2 rfl
+      refine Fwd.bind (fwd_type e n _ σ2 (by rw [hσ1]; exact he) (fun _ => by rw [h3.head_kind]; simp [tP])) ?_
+      rintro e' a3 ⟨he', hσ3⟩
+      refine Fwd.bind (fwd_punct .bracketR (by rw [hσ3]; exact h3)) ?_
+      rintro _ a4 hσ4
+      cases nn with
+      | true =>
+        simp only [bangIf, if_true] at h4
+        refine Fwd.bind (fwd_skipP_yes .bang (by rw [hσ4]; exact h4)) ?_
+        rintro b a5 ⟨rfl, hσ5⟩
+        exact (Fwd.pure _ _).mono fun _ _ h => ⟨by rw [h.1]; simp [GType.erasePos, he'], by rw [h.2, hσ5]⟩
+      | false =>
+        simp only [bangIf, Bool.false_eq_true, if_false] at h4
+        rw [Starts.nil_iff] at h4
+        refine Fwd.bind (fwd_skipP_no .bang (by rw [hσ4, h4]; exact hfol rfl)) ?_
+        rintro b a5 ⟨rfl, hσ5⟩
+        exact (Fwd.pure _ _).mono fun _ _ h => ⟨by rw [h.1]; simp [GType.erasePos, he'], by rw [h.2, hσ5, hσ4, h4]⟩
+
 end Gql.Parser
